@@ -1,6 +1,7 @@
 /- Tie for C15: regenerated facts of pkg/merkle/merkle.go. -/
 import Iota.Gen.Merkle
 import Iota.Tie.Expect
+import Iota.Proofs.Vectors.Hash
 
 namespace Iota.Tie.C15
 open Iota
